@@ -204,6 +204,22 @@ def binFinish (dst : Option Nat) (d : Nat) (long' : Bool) (rel : List Nat) : Gen
     emit ⟨Consts.op_MOV + Consts.op_REG + longBit long', dst.getD 0, d, 0, 0⟩
     pure ⟨dst.getD 0, long', []⟩
 
+/-- `long or arg_long` in `Unary.calculate` (`long` is `None`, `False` or `True`) -/
+def unaryLong (long : Option Bool) (argLong : Bool) : Bool := long == some true || argLong
+
+/-- the sign test of `abs`: `JSGE` (64-bit comparison), with `SHORT` (JMP32) after a 32-bit computation -/
+def absTest (long : Bool) : Nat := Consts.op_JSGE + (if long then 0 else Consts.op_SHORT)
+
+/-- `Absolute.calculate_unary`: `regs = sr if long else sw`; `with regs[dst] < 0: regs[dst] = -regs[dst]` — the sign test
+and the negation have the width of the computation.  `Register.calculate` inside the comparison wants `dst` owned;
+`RegisterArray.__setitem__` adds it to `owners` (it is there already) -/
+def absTail (reg : Nat) (long : Bool) : GenM Unit := do
+  let os ← getOwners
+  if !os.contains reg then fail .asm
+  emit ⟨absTest long, reg, 0, 1, 0⟩
+  addOwner reg
+  emit ⟨Consts.op_NEG + longBit long, reg, 0, 0, 0⟩
+
 /-- the `calculate` context managers of `Constant`, `Register`, `Binary` (also `Sum`, `AndExpression`),
 `Negate`, `Absolute`, `Memory`.  Arguments as in Python: destination (`None` = any), `long`
 (`None` = inherit), `force`. -/
@@ -234,19 +250,21 @@ def calculate : Expr → Option Nat → Option Bool → Bool → GenM CalcRes
     release lres.rel                                          -- end of `with self.left.calculate(...)`
     binRight op r.asSmallConst (calculate r none (some long') false) lres.reg long'
     binFinish dst lres.reg long' rel
-  | .neg a, dst, long, force => do
-    let res ← calculate a dst long force
-    emit ⟨Consts.op_NEG + longBit res.long, res.reg, 0, 0, 0⟩
-    pure res
-  | .abs a, dst, long, force => do
-    let res ← calculate a dst long force
-    -- `with self.ebpf.sr[dst] < 0: self.ebpf.sr[dst] = -self.ebpf.sr[dst]`
-    let os ← getOwners
-    if !os.contains res.reg then fail .asm
-    emit ⟨Consts.op_JSGE, res.reg, 0, 1, 0⟩
-    addOwner res.reg
-    emit ⟨Consts.op_NEG + Consts.op_LONG, res.reg, 0, 0, 0⟩
-    pure res
+  | .neg a, dst, long, _ => do
+    -- `Unary.calculate`: `with get_free_register(dst) as dst: with self.arg.calculate(dst, long, True)`: the operator
+    -- works on a copy (the destination the caller offers, else a free register), never on the argument's own register;
+    -- `long = long or arg_long`: 64 bits if the caller asks for them or the argument has them
+    let (d, rel) ← getFree dst
+    let res ← calculate a (some d) long true
+    let lg := unaryLong long res.long
+    emit ⟨Consts.op_NEG + longBit lg, res.reg, 0, 0, 0⟩
+    pure ⟨res.reg, lg, res.rel ++ rel⟩
+  | .abs a, dst, long, _ => do
+    let (d, rel) ← getFree dst
+    let res ← calculate a (some d) long true
+    let lg := unaryLong long res.long
+    absTail res.reg lg
+    pure ⟨res.reg, lg, res.rel ++ rel⟩
   | .mem fmt addr, dst, long, _ =>
     match addr.asSum with
     | some (base, off) => do
@@ -576,41 +594,14 @@ def retLong (L : Bool) : Expr → Bool
   | .const v => !(decide (-2147483648 ≤ v) && decide (v < 4294967296))
   | .reg _ lg _ => lg
   | .bin _ _ _ _ _ => L
-  | .neg a => retLong L a
-  | .abs a => retLong L a
+  | .neg a => L || retLong L a
+  | .abs a => L || retLong L a
   | .mem f _ => f.isLong
 
-/-- a register, possibly under unary operators: an unforced `calculate` hands out the register itself -/
+/-- a register: an unforced `calculate` hands out the register itself (unary operators work on a copy) -/
 def regChain : Expr → Bool
   | .reg _ _ _ => true
-  | .neg a => regChain a
-  | .abs a => regChain a
   | _ => false
-
-def longRegChain : Expr → Bool
-  | .reg _ lg _ => lg
-  | .neg a => longRegChain a
-  | .abs a => longRegChain a
-  | _ => false
-
-/-- *unary-in-place*: a unary operator applied to a register that is not forced into a destination negates the
-source register itself -/
-def unaryInPlace : Expr → Bool → Bool
-  | .const _, _ => false
-  | .reg _ _ _, _ => false
-  | .bin _ l r _ _, _ => unaryInPlace l true || (r.asSmallConst.isNone && unaryInPlace r false)
-  | .neg a, f => (!f && regChain a) || unaryInPlace a f
-  | .abs a, f => (!f && regChain a) || unaryInPlace a f
-  | .mem _ a, _ => a.asSum.isNone && unaryInPlace a false
-
-/-- *unary-32-in-64*: unary minus in a 64-bit computation on an operand that reports 32 bits -/
-def neg32in64 : Expr → Bool → Bool
-  | .const _, _ => false
-  | .reg _ _ _, _ => false
-  | .bin _ l r _ _, L => neg32in64 l L || (r.asSmallConst.isNone && neg32in64 r L)
-  | .neg a, L => (L && !retLong L a) || neg32in64 a L
-  | .abs a, L => neg32in64 a L
-  | .mem _ a, _ => a.asSum.isNone && neg32in64 a true
 
 /-- where a node is forced to put its result -/
 inductive DstCtx where
@@ -623,6 +614,11 @@ def DstCtx.forLeft (d : DstCtx) (r : Expr) : DstCtx :=
   | .temp => .temp
   | .reg n => if r.contains n then .temp else .reg n
 
+/-- the argument of a unary operator is forced into the offered destination, else into a fresh temporary -/
+def DstCtx.forced : DstCtx → DstCtx
+  | .any => .temp
+  | d => d
+
 /-- *narrow-reg-in-64*: a 32-bit register view inside a 64-bit computation, except an unsigned one that is moved
 (32-bit move, zero-extending) into a different register -/
 def narrowIn64 : Expr → Bool → Bool → DstCtx → Bool
@@ -630,18 +626,9 @@ def narrowIn64 : Expr → Bool → Bool → DstCtx → Bool
   | .reg no lg sg, L, forced, dst => L && !lg && (sg || !(forced && dst != .reg no))
   | .bin _ l r _ _, L, _, dst =>
     narrowIn64 l L true (dst.forLeft r) || (r.asSmallConst.isNone && narrowIn64 r L false .any)
-  | .neg a, L, f, d => narrowIn64 a L f d
-  | .abs a, L, f, d => narrowIn64 a L f d
+  | .neg a, L, _, d => narrowIn64 a L true d.forced
+  | .abs a, L, _, d => narrowIn64 a L true d.forced
   | .mem _ a, _, _, _ => a.asSum.isNone && narrowIn64 a true false .any
-
-/-- *abs-32*: `abs` in a 32-bit computation tests the sign with a 64-bit comparison of a zero-extended value -/
-def abs32 : Expr → Bool → Bool
-  | .const _, _ => false
-  | .reg _ _ _, _ => false
-  | .bin _ l r _ _, L => abs32 l L || (r.asSmallConst.isNone && abs32 r L)
-  | .neg a, L => abs32 a L
-  | .abs a, L => (!L && !longRegChain a) || abs32 a L
-  | .mem _ a, _ => a.asSum.isNone && abs32 a true
 
 /-- the width a statement asks for and whether/where its value is forced -/
 def Dest.long (env : List VarLoc) : Dest → Bool
@@ -658,8 +645,7 @@ def stmtClasses (env : List VarLoc) : Stmt → List String
     let L := d.long env
     let (forced, dc) := d.ctx
     let t : List (String × Bool) := match elabE env e with
-      | .ok (.ex x) => [("abs-32", abs32 x L), ("narrow-reg-in-64", narrowIn64 x L forced dc),
-                        ("unary-32-in-64", neg32in64 x L), ("unary-in-place", unaryInPlace x forced)]
+      | .ok (.ex x) => [("narrow-reg-in-64", narrowIn64 x L forced dc)]
       | _ => []
     (t.filter (·.2)).map (·.1)
 
